@@ -521,14 +521,18 @@ pub fn run_program(prog: Program, opts: &Opts, plan: noise::Plan) -> RunResult {
                 let done = Arc::new(AtomicBool::new(false));
                 let d2 = Arc::clone(&done);
                 let main = thread::current();
-                noise::set_plan(noise::Plan::Off, ctx.prog.run_seed);
+                // The released bodies go on to make scheduling calls (which find no dormant thread and try to spawn) while the maximum is
+                // lowered and the pool despawned: dense small delays at the lock points of both sides, unless this run is noise-free
+                if plan != noise::Plan::Off { noise::set_plan(noise::Plan::Uniform { ppm: 300_000, max_us: 120 }, ctx.prog.run_seed ^ 0x53); }
+                // three orders: bodies released first, both at once, or the despawn given a head start so that it is in its joins
+                let order = (ctx.prog.run_seed >> 17) % 3;
+                if order == 0 { for h in &ph.occupy { ctx.holds[*h].open(); } }
                 spawn_task("vh-z".into(), Box::new(move || {
                     let _ = catch_unwind(AssertUnwindSafe(|| configure_pool(lower, PoolMode::Warm)));
                     d2.store(true, Ordering::SeqCst);
                     main.unpark();
                 }));
-                // give the despawn a moment to reach its joins (whether it has is irrelevant for correctness), then release the bodies
-                if native { thread::sleep(Duration::from_micros(300)); } else { for _ in 0..200 { thread::yield_now(); } }
+                if order == 2 { if native { thread::sleep(Duration::from_micros(300)); } else { for _ in 0..200 { thread::yield_now(); } } }
                 for h in &ph.occupy { ctx.holds[*h].open(); }
                 match wait_until(native, watchdog, || done.load(Ordering::SeqCst)) {
                     Wait::Done => {
